@@ -612,6 +612,10 @@ struct MCtx<'a> {
     queries: bool,
     sig_checks: bool,
     inspection: bool,
+    /// Events of the outermost activation, as the chain receives them: one section per
+    /// state-affecting interrupt (transfer, call, upgrade) plus the final one; queries do not
+    /// end a section. Each event is represented by its length.
+    sections: Vec<Vec<u32>>,
     /// the simulated memory image of the data region (for log events and writes)
     mem:     Vec<u8>,
     /// Sum of the scheduled charges of the host calls reached so far (frozen copy of the
@@ -988,6 +992,9 @@ fn model_run(plan: &VPlan, si: usize, st: &mut MState, ctx: &mut MCtx) -> MOutco
                     ctx.min_energy += 500 + 1000 * *len as u64;
                     if !ctx.limit_logs || ctx.logs < MAX_NUM_LOGS {
                         ctx.logs += 1;
+                        if ctx.depth == 0 {
+                            ctx.sections.last_mut().unwrap().push(*len);
+                        }
                         1
                     } else {
                         0
@@ -1006,8 +1013,13 @@ fn model_run(plan: &VPlan, si: usize, st: &mut MState, ctx: &mut MCtx) -> MOutco
             SOp::SelfBalance => ctx.balance,
             SOp::InvokeSelf { script: target } => {
                 ctx.min_energy += 500 + c_copy_parameter(2);
+                if ctx.depth == 0 {
+                    ctx.sections.push(Vec::new());
+                }
                 if *target == 0 || *target >= plan.scripts.len() || ctx.depth >= 3 {
-                    // the chain stub answers "entrypoint does not exist" for these
+                    // the chain stub answers "entrypoint does not exist" for these; the events so far
+                    // were handed over with the interrupt all the same
+                    ctx.logs = 0;
                     0x04_0000_0000
                 } else {
                     // the callee runs on a fresh generation of the same instance
@@ -1029,7 +1041,9 @@ fn model_run(plan: &VPlan, si: usize, st: &mut MState, ctx: &mut MCtx) -> MOutco
                     ctx.depth += 1;
                     let o = model_run(plan, *target, &mut inner, ctx);
                     ctx.depth -= 1;
-                    ctx.logs = saved_logs;
+                    let _ = saved_logs;
+                    // the caller's events were handed over at the interrupt: its count restarts
+                    ctx.logs = 0;
                     ctx.params = saved_params;
                     ctx.rv = saved_rv;
                     match o {
@@ -1091,12 +1105,18 @@ fn model_run(plan: &VPlan, si: usize, st: &mut MState, ctx: &mut MCtx) -> MOutco
                 }
                 if *tag <= 1 {
                     ctx.logs = 0;
+                    if ctx.depth == 0 {
+                        ctx.sections.push(Vec::new());
+                    }
                 }
                 model_response(resp, ctx)
             }
             SOp::Upgrade { resp } => {
                 ctx.min_energy += 500;
                 ctx.logs = 0;
+                if ctx.depth == 0 {
+                    ctx.sections.push(Vec::new());
+                }
                 model_response(resp, ctx)
             }
             SOp::Env { func, len, off } => {
@@ -1172,6 +1192,9 @@ fn model_run(plan: &VPlan, si: usize, st: &mut MState, ctx: &mut MCtx) -> MOutco
                     return MOutcome::Trap;
                 }
                 ctx.logs = 0;
+                if ctx.depth == 0 {
+                    ctx.sections.push(Vec::new());
+                }
                 let _ = model_response(resp, ctx);
                 if *n as u64 + *m as u64 + 2 > 1024 {
                     return MOutcome::Trap;
@@ -1245,6 +1268,10 @@ struct Chain<'a> {
     rollbacks:  u32,
     /// first interrupt whose kind or content does not match the operation that caused it
     kind_mismatch: Option<String>,
+    /// events of the outermost activation as received: per state-affecting interrupt and at the end
+    sections: Vec<Vec<u32>>,
+    /// a query interrupt delivered events (it must not)
+    query_with_logs: bool,
 }
 
 /// The interrupt handed to the chain must be the operation the contract asked for, with the
@@ -1386,8 +1413,12 @@ impl Chain<'_> {
                     state_changed,
                     return_value,
                     remaining_energy,
+                    logs,
                     ..
                 }) => {
+                    if depth == 0 {
+                        self.sections.push(logs.logs.iter().map(|l| l.len() as u32).collect());
+                    }
                     return (
                         ROutcome::Done {
                             code: 0,
@@ -1419,8 +1450,17 @@ impl Chain<'_> {
                     state_changed,
                     config,
                     interrupt,
+                    logs,
                     ..
                 }) => {
+                    if depth == 0 {
+                        let lens: Vec<u32> = logs.logs.iter().map(|l| l.len() as u32).collect();
+                        if matches!(interrupt, v1::Interrupt::Transfer { .. } | v1::Interrupt::Call { .. } | v1::Interrupt::Upgrade { .. }) {
+                            self.sections.push(lens);
+                        } else if !lens.is_empty() {
+                            self.query_with_logs = true;
+                        }
+                    }
                     self.interrupts += 1;
                     changed_total |= state_changed;
                     let mut energy_left = remaining_energy.energy;
@@ -1824,6 +1864,8 @@ struct RunOut {
     rollbacks: u32,
     origin_intact: bool,
     kind_mismatch: Option<String>,
+    sections: Vec<Vec<u32>>,
+    query_with_logs: bool,
 }
 
 fn run_once(plan: &VPlan, art: &Art, energy: u64) -> RunOut {
@@ -1839,6 +1881,8 @@ fn run_once(plan: &VPlan, art: &Art, energy: u64) -> RunOut {
         reentries: 0,
         rollbacks: 0,
         kind_mismatch: None,
+        sections: Vec::new(),
+        query_with_logs: false,
     };
     let mut ps = PersistentState::from_iterator(plan.initial.iter().map(|(k, v)| (&k[..], v.clone())));
     if plan.from_disk {
@@ -1885,6 +1929,8 @@ fn run_once(plan: &VPlan, art: &Art, energy: u64) -> RunOut {
         rollbacks: chain.rollbacks,
         origin_intact: got == want && got2 == want,
         kind_mismatch: chain.kind_mismatch,
+        sections: chain.sections,
+        query_with_logs: chain.query_with_logs,
     }
 }
 
@@ -2064,6 +2110,7 @@ pub fn execute(plan: &VPlan, rec: &mut Recorder) -> Option<Violation> {
             queries: params.support_queries,
             sig_checks: params.support_account_signature_checks,
             inspection: params.support_contract_inspection_queries,
+            sections: vec![Vec::new()],
             mem: Vec::new(),
             min_energy: 0,
             rv: Vec::new(),
@@ -2103,6 +2150,21 @@ pub fn execute(plan: &VPlan, rec: &mut Recorder) -> Option<Violation> {
                             used, ctx.min_energy
                         ),
                     );
+                }
+                if plan.focus == VFocus::Host && *code >= 0 {
+                    if r0.query_with_logs {
+                        return viol("visible-result", "host/events-at-query", "a read-only query interrupt handed events to the chain".into());
+                    }
+                    if r0.sections != ctx.sections {
+                        return viol(
+                            "visible-result",
+                            "host/events",
+                            format!(
+                                "events delivered to the chain (lengths, one list per transfer/call/upgrade interrupt and a final one): {:?}; the contract logged {:?}",
+                                r0.sections, ctx.sections
+                            ),
+                        );
+                    }
                 }
                 if c != code {
                     return viol("outcome", format!("{}/return-code", pfx), format!("entrypoint returned {} but the script returns {}", code, c));
